@@ -66,15 +66,20 @@ theorem restartStep_cs (s : State) (full : Bool) :
   dsimp only
   split <;> exact ⟨rfl, rfl, rfl⟩
 
-/-- `commits` either does nothing (not applicable) or decides the fresh running instance `i` of height `rh` -/
+/-- the decided version of the fresh running instance `i` that `commits` puts into the container -/
+def commitsCtrl (s : State) (i : Inst) (root : Nat) : Ctrl :=
+  { s.c with insts := replaceInst { i with decided := true, commits := singles s.q root } s.c.insts }
+
+/-- `commits` either does nothing (not applicable) or decides the fresh running instance `i` of height `rh`; the runner
+    then saves it, unless the duty already holds a decided value -/
 theorem commitsStep_cases (s : State) (root : Nat) (vc : Bool) :
     ((commitsStep s root vc).1 = s ∧ (commitsStep s root vc).2 = .na) ∨
     (∃ rh i, s.r.running = some rh ∧ find s.c.insts rh = some i ∧ i.decided = false ∧
-      (commitsStep s root vc).1.q = s.q ∧
-      (commitsStep s root vc).1.c = { s.c with insts := replaceInst { i with decided := true, commits := singles s.q root } s.c.insts } ∧
-      (commitsStep s root vc).1.s =
-        saveFound { s.c with insts := replaceInst { i with decided := true, commits := singles s.q root } s.c.insts } s.s rh
-          ⟨Gen.heights_FirstRound, root, List.range' 1 s.q⟩) := by
+      (commitsStep s root vc).1.q = s.q ∧ (commitsStep s root vc).2 ≠ .na ∧
+      (commitsStep s root vc).1.c = commitsCtrl s i root ∧
+      ((s.r.hasValue = true ∧ (commitsStep s root vc).1.s = s.s) ∨
+       (s.r.hasValue = false ∧ (commitsStep s root vc).1.s =
+          saveFound (commitsCtrl s i root) s.s rh ⟨Gen.heights_FirstRound, root, List.range' 1 s.q⟩))) := by
   unfold commitsStep
   cases hd : s.r.duty with
   | none => left; exact ⟨rfl, rfl⟩
@@ -90,9 +95,15 @@ theorem commitsStep_cases (s : State) (root : Nat) (vc : Bool) :
         split
         · rename_i hg
           right
-          refine ⟨rh, i, rfl, hf, ?_, rfl, rfl, rfl⟩
-          simp only [Bool.and_eq_true, Bool.not_eq_true'] at hg
-          exact hg.1.1.1
+          have hnd : i.decided = false := by
+            simp only [Bool.and_eq_true, Bool.not_eq_true'] at hg
+            exact hg.1.1.1
+          cases hv : s.r.hasValue
+          · refine ⟨rh, i, rfl, hf, hnd, rfl, ?_, rfl, Or.inr ⟨rfl, rfl⟩⟩
+            simp only [Bool.false_eq_true, if_false]
+            cases vc <;> simp
+          · refine ⟨rh, i, rfl, hf, hnd, rfl, ?_, rfl, Or.inl ⟨rfl, rfl⟩⟩
+            simp
         · left; exact ⟨rfl, rfl⟩
 
 theorem step_q (s : State) (op : Op) : (step s op).1.q = s.q := by
@@ -161,118 +172,47 @@ theorem step_cs (s : State) (op : Op) : CSStep s op (step s op).1 := by
 
 /-! ## the runner's own save -/
 
-theorem processMsg_cases (q : Nat) (c : Ctrl) (st : Store) (h : Nat) (m : Msg) (ok : Bool) :
-    (processMsg q c st h m ok = (c, st, .err)) ∨
-    (ok = true ∧ q ≤ m.signers.length ∧ processMsg q c st h m ok = uponDecided c st h m) := by
-  unfold processMsg
-  cases ok
-  · left; rfl
-  · by_cases hq : m.signers.length < q
-    · left; simp [hq]
-    · right; exact ⟨rfl, by omega, by simp [hq]⟩
-
 theorem uponDecided_out (c : Ctrl) (st : Store) (h : Nat) (m : Msg) :
     (uponDecided c st h m).2.2 = if prevDecidedOf c st h then .dup else .new := rfl
 
-theorem branch_saves_of_not_prevDecided {c : Ctrl} {st : Store} {h : Nat} (m : Msg) (hp : prevDecidedOf c st h = false) :
-    (decidedBranch c st h m).2 = true := by
-  unfold prevDecidedOf at hp
-  unfold decidedBranch
-  cases hi : instanceForHeight c st h with
-  | none => rfl
-  | some p =>
-    obtain ⟨i, inMem⟩ := p
-    rw [hi] at hp
-    simp only at hp ⊢
-    simp [hp]
-
-theorem Fresh.compact {c : Ctrl} {h : Nat} {m : Msg} (hf : Fresh c.insts h m) : Fresh (compactAt c h).insts h m := by
-  unfold compactAt
-  cases hfd : find c.insts h with
-  | none => simpa [hfd] using hf
-  | some i =>
-    simp only
-    intro x hx
-    rw [find_replaceInst_same hfd (by rw [trim_height]; exact find_some_height hfd)] at hx
-    cases hx
-    obtain ⟨hd, hm⟩ := hf i hfd
-    exact ⟨hd, fun hr => by rw [longest_trim i _ _ hr]; exact hm hr⟩
-
-theorem compactAt_height (c : Ctrl) (h : Nat) : (compactAt c h).height = c.height := by
-  unfold compactAt; split <;> rfl
-
 theorem uponDecided_insts (c : Ctrl) (st : Store) (h : Nat) (m : Msg) :
     (uponDecided c st h m).1.insts = (decidedBranch c st h m).1 := rfl
-
-/-- the controller part of `ProcessMsg` keeps the invariant against the UNCHANGED store (a failed write) -/
-theorem CInv.processMsg_ctrl {c : Ctrl} {st : Store} (inv : CInv c st) (q h : Nat) (m : Msg) (ok : Bool) :
-    CInv (Heights.processMsg q c st h m ok).1 st := by
-  rcases processMsg_cases q c st h m ok with he | ⟨_, _, he⟩
-  · rw [he]; exact inv
-  · rw [he]
-    have := uponDecided_eq c st h m
-    simp only at this
-    rw [this]
-    exact inv.branch h m
-
-theorem processMsg_height_ge (q : Nat) (c : Ctrl) (st : Store) (h : Nat) (m : Msg) (ok : Bool) :
-    c.height ≤ (processMsg q c st h m ok).1.height := by
-  rcases processMsg_cases q c st h m ok with he | ⟨_, _, he⟩
-  · rw [he]; exact Nat.le_refl _
-  · rw [he]; exact (uponDecided_height_ge _ _ _ _).2
-
-/-- the runner's own save after a `.new`: the instance of that height is fresh w.r.t. the message -/
-theorem fresh_of_new {s : State} {h : Nat} {m : Msg} {ok : Bool} (hnew : (processMsg s.q s.c s.s h m ok).2.2 = .new) :
-    s.q ≤ m.signers.length ∧ prevDecidedOf s.c s.s h = false ∧ processMsg s.q s.c s.s h m ok = uponDecided s.c s.s h m ∧
-    Fresh (processMsg s.q s.c s.s h m ok).1.insts h m ∧ h ≤ (processMsg s.q s.c s.s h m ok).1.height := by
-  rcases processMsg_cases s.q s.c s.s h m ok with he | ⟨_, hq, he⟩
-  · rw [he] at hnew; cases hnew
-  · have hpd : prevDecidedOf s.c s.s h = false := by
-      rw [he, uponDecided_out] at hnew
-      cases hpd : prevDecidedOf s.c s.s h
-      · rfl
-      · simp [hpd] at hnew
-    refine ⟨hq, hpd, he, ?_, ?_⟩
-    · rw [he, uponDecided_insts]
-      exact decidedBranch_fresh _ _ _ _ (branch_saves_of_not_prevDecided m hpd)
-    · rw [he]; exact (uponDecided_height_ge s.c s.s h m).1
 
 theorem runnerSaves_new {r : Runner} {h : Nat} {o : DOut} (hsv : runnerSaves r h o = true) : o = .new := by
   unfold runnerSaves at hsv
   simp only [Bool.and_eq_true] at hsv
   simpa using hsv.1.1.1
 
+/-- a `.new` outcome: the message was a valid decided message, so the controller height is at or above its height -/
+theorem new_valid {s : State} {h : Nat} {m : Msg} {ok : Bool} (hnew : (processMsg s.q s.c s.s h m ok).2.2 = .new) :
+    s.q ≤ m.signers.length ∧ processMsg s.q s.c s.s h m ok = uponDecided s.c s.s h m ∧
+    h ≤ (processMsg s.q s.c s.s h m ok).1.height := by
+  rcases processMsg_cases s.q s.c s.s h m ok with he | ⟨_, hq, he⟩
+  · rw [he] at hnew; cases hnew
+  · exact ⟨hq, he, by rw [he]; exact (uponDecided_height_ge s.c s.s h m).1⟩
+
+theorem commitsCtrl_height (s : State) (i : Inst) (root : Nat) : (commitsCtrl s i root).height = s.c.height := rfl
+
+theorem CInv.commitsCtrl {s : State} (inv : CInv s.c s.s) (i : Inst) (root : Nat) : CInv (commitsCtrl s i root) s.s := by
+  refine ⟨inv.top.replace' _, inv.le, ?_, inv.hist⟩
+  intro a ha hah
+  have := inv.live a ha hah
+  unfold AtTop at this ⊢
+  show (find (replaceInst _ s.c.insts) s.c.height).isSome = true
+  rw [find_replaceInst_isSome]
+  exact this
+
 theorem CInv.commits {s : State} (inv : CInv s.c s.s) (root : Nat) (vc : Bool) :
     CInv (commitsStep s root vc).1.c (commitsStep s root vc).1.s := by
-  rcases commitsStep_cases s root vc with ⟨h, _⟩ | ⟨rh, i, _, hf, hnd, _, hc, hs⟩
+  rcases commitsStep_cases s root vc with ⟨h, _⟩ | ⟨rh, i, _, hf, _, _, _, hc, ⟨_, hs⟩ | ⟨_, hs⟩⟩
   · rw [h]; exact inv
+  · rw [hc, hs]; exact inv.commitsCtrl i root
   · rw [hc, hs]
-    have hih := find_some_height hf
-    have hrh : rh ≤ s.c.height := hih ▸ inv.top.le i (find_some_mem hf)
-    -- the container update alone keeps the invariant
-    have hc' : CInv { s.c with insts := replaceInst { i with decided := true, commits := singles s.q root } s.c.insts } s.s := by
-      refine ⟨inv.top.replace ⟨i, find_some_mem hf, rfl⟩, inv.le, inv.wf, ?_⟩
-      intro a ha hah
-      obtain ⟨i0, rest, hl, hi0, hcar⟩ := inv.live a ha hah
-      show ∃ i' rest', replaceInst _ s.c.insts = i' :: rest' ∧ _
-      rw [hl]
-      by_cases hh : rh = s.c.height
-      · have : i = i0 := by
-          rw [hl, find_cons] at hf
-          simp [hi0, hh] at hf
-          exact hf.symm
-        subst this
-        rw [hcar.1] at hnd; cases hnd
-      · rw [replaceInst_cons_other (by show i0.height ≠ i.height; omega)]
-        exact ⟨i0, _, rfl, hi0, hcar⟩
-    apply hc'.saveFound hrh
-    intro x hx
-    have hx' : find (replaceInst { i with decided := true, commits := singles s.q root } s.c.insts) rh = some x := hx
-    rw [find_replaceInst_same (i' := { i with decided := true, commits := singles s.q root }) hf hih] at hx'
-    cases hx'
-    exact ⟨rfl, fun _ => longest_singles s.q root⟩
+    apply (inv.commitsCtrl i root).saveFound
+    rw [commitsCtrl_height]
+    exact (find_some_height hf) ▸ inv.top.le i (find_some_mem hf)
 
-theorem SInv.step {s : State} (inv : SInv s) (op : Op) : SInv (step s op).1 := by
+theorem SInv.step {s : State} (inv : SInv s) (op : Op) : SInv (Heights.step s op).1 := by
   unfold SInv at inv ⊢
   rcases step_cs s op with ⟨hc, hs⟩ | ⟨slot, c', hst, hc, hs⟩ | ⟨h, m, ok, hc, hs⟩ | ⟨h, m, ok, hc, hs⟩ |
     ⟨h, m, ok, _, hc, hs⟩ | ⟨h, m, ok, _, hc, hs⟩ | ⟨root, vc, hc, hs⟩ | ⟨h, hc, hs⟩ | ⟨full, _, hc, hs⟩
@@ -283,7 +223,6 @@ theorem SInv.step {s : State} (inv : SInv s) (op : Op) : SInv (step s op).1 := b
     unfold decidedViaRunner
     simp only
     have hp := inv.processMsg s.q h m ok
-    -- compaction
     have hc2 : CInv (if s.q ≤ m.signers.length then compactAt (processMsg s.q s.c s.s h m ok).1 h else (processMsg s.q s.c s.s h m ok).1)
         (processMsg s.q s.c s.s h m ok).2.1 := by
       split
@@ -292,27 +231,10 @@ theorem SInv.step {s : State} (inv : SInv s) (op : Op) : SInv (step s op).1 := b
     cases hsv : runnerSaves s.r h (processMsg s.q s.c s.s h m ok).2.2
     · simpa using hc2
     · simp only [if_true]
-      -- the runner saves only after a `.new`: the message went through UponDecided, the instance was not decided before
-      have hnew : (processMsg s.q s.c s.s h m ok).2.2 = .new := by
-        unfold runnerSaves at hsv
-        simp only [Bool.and_eq_true] at hsv
-        have := hsv.1.1.1
-        simpa using this
-      rcases processMsg_cases s.q s.c s.s h m ok with he | ⟨_, hq, he⟩
-      · rw [he] at hnew; cases hnew
-      · rw [he] at hnew hc2 ⊢
-        have hpd : prevDecidedOf s.c s.s h = false := by
-          rw [uponDecided_out] at hnew
-          cases hpd : prevDecidedOf s.c s.s h
-          · rfl
-          · simp [hpd] at hnew
-        have hfr : Fresh (uponDecided s.c s.s h m).1.insts h m := by
-          rw [uponDecided_insts]
-          exact decidedBranch_fresh _ _ _ _ (branch_saves_of_not_prevDecided m hpd)
-        simp only [hq, if_true] at hc2 ⊢
-        apply hc2.saveFound
-        · rw [compactAt_height]; exact (uponDecided_height_ge s.c s.s h m).1
-        · exact hfr.compact
+      obtain ⟨hq, _, hle⟩ := new_valid (runnerSaves_new hsv)
+      simp only [hq, if_true] at hc2 ⊢
+      apply hc2.saveFound
+      rw [compactAt_height]; exact hle
   · rw [hc, hs]; exact inv.processMsg_ctrl s.q h m ok
   · rw [hc, hs]
     unfold decidedViaRunnerSF
@@ -328,11 +250,10 @@ theorem SInv.step {s : State} (inv : SInv s) (op : Op) : SInv (step s op).1 := b
     · simpa using hc2
     · simp only [if_true]
       simp only [Bool.and_eq_true] at hsv
-      obtain ⟨hq, _, _, hfr, hle⟩ := fresh_of_new (runnerSaves_new hsv.1)
+      obtain ⟨hq, _, hle⟩ := new_valid (runnerSaves_new hsv.1)
       simp only [hq, if_true] at hc2 ⊢
       apply hc2.saveFound
-      · rw [compactAt_height]; exact hle
-      · exact hfr.compact
+      rw [compactAt_height]; exact hle
   · rw [hc, hs]; exact CInv.commits inv root vc
   · rw [hc, hs]; exact inv.compact h
   · rw [hc, hs]; exact inv.load full
